@@ -35,7 +35,7 @@ import threading
 from concurrent.futures import ThreadPoolExecutor
 from typing import Any
 
-from hv.gen import family
+from hv.gen import argnames, family
 from hv.record import Recorder
 
 ID = "C18"
@@ -487,6 +487,13 @@ def mimic_checks(R: Recorder) -> None:
 DECOS = ("asynchronous", "asynchronous-call", "asynchronous-executor", "wrap_async", "wrap_async-of-async", "traced", "traced-async")
 
 
+def argname_wrappers() -> dict[str, tuple[Any, bool, bool]]:
+    from haiway import asynchronous, traced, wrap_async
+
+    return {"asynchronous": (asynchronous, False, False), "asynchronous-call": (asynchronous(), False, False), "wrap_async": (wrap_async, False, False),
+            "wrap_async-of-async": (wrap_async, True, False), "traced": (traced, False, False), "traced-async": (traced, True, False)}
+
+
 def cases(tier: str, rng: random.Random):  # noqa: ANN201
     depths = (0, 1, 2, 3)
     for deco in DECOS:
@@ -516,6 +523,7 @@ def run(R: Recorder, tier: str, seed: int, shard: int, nshards: int) -> None:
     R.flags["exhaustive_core"] = "7 decorator variants x 8 callables x all call forms x value/raise x scope depths"
     if shard == 0:
         mimic_checks(R)
+        argnames.check(R, "transparent", argname_wrappers())
     rng = random.Random(f"C18/{seed}")
     capture = LogCapture()
     root = logging.getLogger()
@@ -553,6 +561,9 @@ def replay(R: Recorder, case: dict[str, Any]) -> None:
 
     if "mimic" in case:
         mimic_checks(R)
+        return
+    if "argnames" in case:
+        argnames.check(R, "transparent", argname_wrappers(), only=case["argnames"])
         return
     capture = LogCapture()
     root = logging.getLogger()
